@@ -968,6 +968,8 @@ void mon_capabilities(const Run& run, const Ix& ix, Verdicts& v, vu::Result& res
         const auto& reqs = pub ? ix.op_pubs[o.id] : ix.op_reqs[o.id];
         const char* P = run.sc->family.rfind("c16", 0) == 0 ? "C16" : "C15";
         if (!reqs.empty()) v.add(P, std::string(P) + ":refused-request-on-the-wire", op_str(o) + ": a request that must be refused was transmitted");
+        if (o.kind == OpKind::disconnect)
+            for (auto& k : h.cpkts) if (k.seq > o.seq_init && k.dec.status == ref::Status::ok && k.dec.pkt.type == ref::DISCONNECT) { v.add(P, std::string(P) + ":refused-request-on-the-wire", op_str(o) + ": a DISCONNECT was transmitted although the request must be refused"); break; }
         if (!o.completions) { v.add(P, std::string(P) + ":refusal-not-reported", op_str(o) + ": a request that must be refused never completed"); continue; }
         if (!o.ec) v.add(P, std::string(P) + ":invalid-request-accepted", op_str(o) + ": a request that must be refused completed successfully");
         if (o.t_done != o.t_init) v.add(P, std::string(P) + ":refusal-not-immediate", op_str(o) + ": refusal took " + std::to_string((o.t_done - o.t_init) / 1e9) + " s");
